@@ -137,6 +137,10 @@ def dep_roots(fn: FuncInfo, expr: ast.AST, exclude_stmts: Set[int] = frozenset()
     for nm, tests in ctrl.items():
         if tests:
             defs.setdefault(nm, []).extend(tests)
+    declared_global: Set[str] = set()
+    for n in walk_local(fn.node):
+        if isinstance(n, (ast.Global, ast.Nonlocal)):
+            declared_global |= set(n.names)
     roots: Set[str] = set()
     seen: Set[str] = set()
     work: List[ast.AST] = [expr] + control_tests(expr)
@@ -177,6 +181,10 @@ def dep_roots(fn: FuncInfo, expr: ast.AST, exclude_stmts: Set[int] = frozenset()
                             cn = c.func.attr if isinstance(c.func, ast.Attribute) else (c.func.id if isinstance(c.func, ast.Name) else "")
                             if cn in IMPURE_CALLS:
                                 roots.add(f"impure:{cn}")
+                    continue
+                if nm in declared_global:
+                    roots.add(f"global:{nm}")
+                    work.extend(defs.get(nm, []))
                     continue
                 if nm in defs:
                     work.extend(defs[nm])
